@@ -4344,6 +4344,27 @@ fn parse_text_qualifiers<'a>(
     }
 }
 
+fn parse_int(value: &str) -> Result<isize, StamError> {
+    value.parse().map_err(|_| {
+        StamError::QuerySyntaxError(
+            format!(
+                "Expected an integer value, got '{}' (malformed or out of range)",
+                value
+            ),
+            "",
+        )
+    })
+}
+
+fn parse_float(value: &str) -> Result<f64, StamError> {
+    value.parse().map_err(|_| {
+        StamError::QuerySyntaxError(
+            format!("Expected a floating point value, got '{}'", value),
+            "",
+        )
+    })
+}
+
 fn parse_dataoperator<'a>(
     opstr: &'a str,
     value: &'a str,
@@ -4359,19 +4380,19 @@ fn parse_dataoperator<'a>(
             _ => unreachable!("boolean should be true or false"),
         },
         ("=", ArgType::Integer) => {
-            DataOperator::EqualsInt(value.parse().expect("str->int conversion should work"))
+            DataOperator::EqualsInt(parse_int(value)?)
         }
         ("=", ArgType::Float) => {
-            DataOperator::EqualsFloat(value.parse().expect("str->float conversion should work"))
+            DataOperator::EqualsFloat(parse_float(value)?)
         }
         ("!=", ArgType::String) => {
             DataOperator::Not(Box::new(DataOperator::Equals(Cow::Borrowed(value))))
         }
         ("!=", ArgType::Integer) => DataOperator::Not(Box::new(DataOperator::EqualsInt(
-            value.parse().expect("str->int conversion should work"),
+            parse_int(value)?,
         ))),
         ("!=", ArgType::Float) => DataOperator::Not(Box::new(DataOperator::EqualsFloat(
-            value.parse().expect("str->float conversion should work"),
+            parse_float(value)?,
         ))),
         ("!=", ArgType::Null) => DataOperator::Not(Box::new(DataOperator::Null)),
         ("!=", ArgType::Any) => DataOperator::Not(Box::new(DataOperator::Any)), //this is a tautology, always fails
@@ -4403,28 +4424,28 @@ fn parse_dataoperator<'a>(
             DataOperator::Not(Box::new(DataOperator::Or(values)))
         }
         (">", ArgType::Integer) => {
-            DataOperator::GreaterThan(value.parse().expect("str->int conversion should work"))
+            DataOperator::GreaterThan(parse_int(value)?)
         }
         (">=", ArgType::Integer) => DataOperator::GreaterThanOrEqual(
-            value.parse().expect("str->int conversion should work"),
+            parse_int(value)?,
         ),
         ("<", ArgType::Integer) => {
-            DataOperator::LessThan(value.parse().expect("str->int conversion should work"))
+            DataOperator::LessThan(parse_int(value)?)
         }
         ("<=", ArgType::Integer) => {
-            DataOperator::LessThanOrEqual(value.parse().expect("str->int conversion should work"))
+            DataOperator::LessThanOrEqual(parse_int(value)?)
         }
         (">", ArgType::Float) => DataOperator::GreaterThanFloat(
-            value.parse().expect("str->float conversion should work"),
+            parse_float(value)?,
         ),
         (">=", ArgType::Float) => DataOperator::GreaterThanOrEqualFloat(
-            value.parse().expect("str->float conversion should work"),
+            parse_float(value)?,
         ),
         ("<", ArgType::Float) => {
-            DataOperator::LessThanFloat(value.parse().expect("str->float conversion should work"))
+            DataOperator::LessThanFloat(parse_float(value)?)
         }
         ("<=", ArgType::Float) => DataOperator::LessThanOrEqualFloat(
-            value.parse().expect("str->float conversion should work"),
+            parse_float(value)?,
         ),
         ("=", ArgType::List) => {
             let values: Vec<_> = value
